@@ -94,6 +94,8 @@ def configs(tier):
 
 
 REFS = ["a", "a.b", "a.b.c"]
+# a declared name read inside macro bodies
+DECL_SRCS = ["[1, 2].map(n, b1)[1]", "[1].map(n, [n].map(m, b1)[0])[0]", "[b1].map(n, n)[0]", "[1, 2].filter(n, n == 2).map(n, b1)[0]"]
 
 MACROS = [
     # (source, bound names, expected as python lambda over dict of values)
